@@ -146,6 +146,22 @@ func main() {
 				if s := geo.SignedArea(b.ToRing()); s <= 0 || rel(s, got) > 1e-12 {
 					c.Failf("box-area", "SignedArea(counter-clockwise ring of %v) = %v, want +%v", b, s, got)
 				}
+				// the length of a bound is the sum of its four sides (the two parallels differ in length)
+				ring := b.ToRing()
+				wl, wh := 0.0, 0.0
+				for i := 0; i+1 < len(ring); i++ {
+					wl += geo.Distance(ring[i], ring[i+1])
+					wh += geo.DistanceHaversine(ring[i], ring[i+1])
+				}
+				if l := geo.Length(b); rel(l, wl) > 1e-12 {
+					c.Failf("bound-length", "Length(%v) = %v, the sum of its four sides is %v", b, l, wl)
+				}
+				if l := geo.LengthHaversine(b); rel(l, wh) > 1e-12 {
+					c.Failf("bound-length", "LengthHaversine(%v) = %v, the sum of its four sides is %v", b, l, wh)
+				}
+				if l := geo.Length(orb.Collection{b, orb.Point{1, 1}}); rel(l, wl) > 1e-12 {
+					c.Failf("bound-length", "Length(collection holding %v) = %v, the sum of its four sides is %v", b, l, wl)
+				}
 			}
 		}
 		c.NonTrivial()
@@ -211,6 +227,41 @@ func main() {
 			ca := geo.Area(orb.Collection{orb.Polygon{outer, closed}, closed, orb.Point{1, 1}, orb.LineString{{0, 0}, {1, 1}}, orb.Collection{orb.Polygon{closed}}})
 			if math.Abs(ca-(pa+2*math.Abs(base))) > 1e-9*oa {
 				c.Failf("collection-area", "Area(collection) = %v, want %v | %v", ca, pa+2*math.Abs(base), ring)
+			}
+			// length: the sum of segment distances, for every kind that holds the ring
+			sl, sh2, ol, oh := 0.0, 0.0, 0.0, 0.0
+			for i := 0; i+1 < len(closed); i++ {
+				sl += geo.Distance(closed[i], closed[i+1])
+				sh2 += geo.DistanceHaversine(closed[i], closed[i+1])
+			}
+			for i := 0; i+1 < len(outer); i++ {
+				ol += geo.Distance(outer[i], outer[i+1])
+				oh += geo.DistanceHaversine(outer[i], outer[i+1])
+			}
+			bb := orb.Bound{Min: orb.Point{10, 40}, Max: orb.Point{11.5, 42.5}}
+			bl, bh := 0.0, 0.0
+			for br, i := bb.ToRing(), 0; i+1 < len(br); i++ {
+				bl += geo.Distance(br[i], br[i+1])
+				bh += geo.DistanceHaversine(br[i], br[i+1])
+			}
+			for _, lc := range []struct {
+				what   string
+				g      orb.Geometry
+				wl, wh float64
+			}{
+				{"ring", closed, sl, sh2},
+				{"line string", orb.LineString(closed), sl, sh2},
+				{"multi-line-string", orb.MultiLineString{orb.LineString(closed), orb.LineString(outer)}, sl + ol, sh2 + oh},
+				{"polygon", orb.Polygon{outer, closed}, sl + ol, sh2 + oh},
+				{"multi-polygon", orb.MultiPolygon{{outer, closed}, {closed}}, 2*sl + ol, 2*sh2 + oh},
+				{"collection", orb.Collection{orb.Polygon{outer}, closed, bb, orb.Point{1, 1}, orb.Collection{orb.LineString(closed)}}, 2*sl + ol + bl, 2*sh2 + oh + bh},
+			} {
+				if l := geo.Length(lc.g); rel(l, lc.wl) > 1e-12 && math.Abs(l-lc.wl) > 1e-6 {
+					c.Failf("length-sum", "Length(%s) = %v, the sum of segment distances is %v | %v", lc.what, l, lc.wl, ring)
+				}
+				if l := geo.LengthHaversine(lc.g); rel(l, lc.wh) > 1e-12 && math.Abs(l-lc.wh) > 1e-6 {
+					c.Failf("length-sum", "LengthHaversine(%s) = %v, the sum of segment distances is %v | %v", lc.what, l, lc.wh, ring)
+				}
 			}
 			if base != 0 {
 				c.NonTrivial()
